@@ -125,6 +125,9 @@ def forked(fn, args=(), alarm=60):
             os.close(r)
             signal.signal(signal.SIGALRM, signal.SIG_DFL)
             signal.alarm(alarm)
+            import gc
+
+            gc.disable()  # cyclic GC timing depends on the parent's allocation history
             sys.stdout = io.StringIO()
             sys.stderr = io.StringIO()
             try:
